@@ -11,10 +11,10 @@ TECH = {
  'C02': 'runtime monitoring: census of every generated part after every executed event (conservation invariant) over generated lines with fault scripts',
  'C03': 'runtime monitoring: quiescent-instant probe (offer every ready part to its downstream neighbours on a deep copy with the real give_part) at every clock advance + logical event budgets',
  'C04': 'runtime monitoring: recorded arrival times vs. independent max-plus reference recurrence (exact, Fraction) over random serial lines and tie policies',
- 'C05': 'runtime monitoring: per-event buffer invariants (capacity, level, FIFO, minimum delay) from census transitions',
+ 'C05': 'runtime monitoring: per-event buffer invariants (capacity, level, FIFO, minimum delay) from census transitions; level() as read inside the buffer\'s own receive callbacks',
  'C06': 'runtime monitoring: per-event operational-time accounting of every cycle (accept/finish/lose transitions, down intervals) vs. cycle time in effect',
  'C07': 'runtime monitoring: online reference queue model over exhaustive short + random long pause/resume/cancel sequences at non-zero times',
- 'C08': 'runtime monitoring: routing-history walk against the route graph of the specification, group path stack reconstruction, idle-longest oracle, after every event',
+ 'C08': 'runtime monitoring: routing-history walk against the route graph of the specification, group path stack reconstruction, idle-longest oracle, after every event; histories as read inside receive callbacks',
  'C09': 'runtime monitoring: dictionary reference model stepped next to the real ResourceManager, state compared after every operation (exhaustive short + random long sequences)',
  'C10': 'runtime monitoring: callback invocation log vs. waiting-request rules (exactly once, in order, only when feasible, none feasible left at clock advance)',
  'C11': 'runtime monitoring: per-event invariants on processor holdings vs. requirements and pool usage, idle-holder check at clock advance',
@@ -22,7 +22,7 @@ TECH = {
  'C13': 'runtime monitoring: per-event state machine + exact uptime/utilisation integrals + callback logs under dense fault scripts',
  'C14': 'runtime monitoring: differential runs (same seed twice, split vs. unsplit under keyed tie-breaks, in-process vs. worker processes) compared after id normalisation',
  'C15': 'runtime monitoring: recorded data vs. live state and independent occurrence channels after every event; exported trace vs. dispatch log',
- 'C16': 'runtime monitoring: value identities (asset history, source/sink/maintainer/batch/system sums) after every event',
+ 'C16': 'runtime monitoring: value identities (asset history, source/sink/maintainer/batch/system sums) after every event and as read inside start_work and generator hooks',
  'C17': 'runtime monitoring: leaf-part sequences up- and downstream of every batcher, emitted batch sizes, acceptance state, after every event',
  'C18': 'runtime monitoring: action log and state records vs. independently evaluated timetable with a shadow registry',
  'C19': 'runtime monitoring: sensor data / callbacks vs. independently computed sampling schedule and probed values',
